@@ -173,13 +173,24 @@ theorem takeIdx_time (n : Nat) (dt : ℚ) (idx : List Nat) (h : ∀ i ∈ idx, i
   intro i hi
   simp [List.getD_eq_getElem?_getD, h i hi]
 
+/-- the guarded fancy indexing `time[np.where(mask)]` succeeds when all indices are in range -/
+theorem pyTake_time (n : Nat) (dt : ℚ) (idx : List Nat) (h : ∀ i ∈ idx, i < n) :
+    Gen.ImDur.pyTake ((Np.arange n).map (fun (x : Nat) => (x : ℚ) * dt)) idx =
+      .ok (idx.map (fun (i : Nat) => (i : ℚ) * dt)) := by
+  unfold Gen.ImDur.pyTake
+  rw [if_pos, takeIdx_time n dt idx h]
+  rw [List.all_eq_true]
+  intro i hi
+  simpa [Np.arange] using h i hi
+
 /-- `calc_brac_dur(asig, threshold, se=True)` for an object with `npts = len(values)`: never raises, and returns the model's
 `bracDurSE` -/
 theorem gen_brac_dur_se (a : List ℚ) (dt thr : ℚ) :
     Gen.ImDur.bracDurSE a.length dt a thr = .ok (bracDurSE a dt thr) := by
   unfold Gen.ImDur.bracDurSE bracDurSE
-  rw [takeIdx_time a.length dt _ (fun i hi => ((mem_whereIdx _ a i).mp hi).1)]
+  rw [pyTake_time a.length dt _ (fun i hi => ((mem_whereIdx _ a i).mp hi).1)]
   unfold Gen.ImDur.pyFirst Gen.ImDur.pyLast Gen.ImDur.catchIndexError firstLast?
+  simp only [bind, Except.bind]
   rw [List.head?_map, List.getLast?_map]
   cases (whereIdx (fun x => decide (thr < absv x)) a).head? <;>
     cases (whereIdx (fun x => decide (thr < absv x)) a).getLast? <;> rfl
@@ -188,11 +199,12 @@ theorem gen_brac_dur_se (a : List ℚ) (dt thr : ℚ) :
 theorem gen_brac_dur (a : List ℚ) (dt thr : ℚ) :
     Gen.ImDur.bracDur a.length dt a thr = .ok (bracDur a dt thr) := by
   unfold Gen.ImDur.bracDur bracDur bracDurSE
-  rw [takeIdx_time a.length dt _ (fun i hi => ((mem_whereIdx _ a i).mp hi).1)]
+  rw [pyTake_time a.length dt _ (fun i hi => ((mem_whereIdx _ a i).mp hi).1)]
   unfold Gen.ImDur.pyFirst Gen.ImDur.pyLast Gen.ImDur.catchIndexError firstLast?
+  simp only [bind, Except.bind]
   rw [List.head?_map, List.getLast?_map]
   cases h0 : (whereIdx (fun x => decide (thr < absv x)) a).head? <;>
-    cases h1 : (whereIdx (fun x => decide (thr < absv x)) a).getLast? <;> try rfl
+    cases h1 : (whereIdx (fun x => decide (thr < absv x)) a).getLast? <;> rfl
 
 /-- `calc_bracketed_duration` (deprecated) forwards to `calc_brac_dur` with the callee's default `se=False` -/
 theorem gen_bracketed_duration (a : List ℚ) (dt thr : ℚ) :
